@@ -6,6 +6,7 @@ import (
 	"sort"
 
 	age "github.com/craterdog/go-collection-framework/v4/agent"
+	col "github.com/craterdog/go-collection-framework/v4/collection"
 	"verifharness/core"
 	"verifharness/lib"
 	"verifharness/model"
@@ -352,7 +353,8 @@ type typedPoolCase struct {
 }
 
 func genTypedPool(s core.Source) typedPoolCase {
-	c := typedPoolCase{Type: core.Pick(s, []string{"[]int", "map[string]int", "[][]int", "[]string", "map[int][]int", "map[int]int/large", "map[int]int/large", "[]float64"}, "type")}
+	c := typedPoolCase{Type: core.Pick(s, []string{"[]int", "map[string]int", "[][]int", "[]string", "map[int][]int", "map[int]int/large", "map[int]int/large", "[]float64",
+		"[]MapLike", "List[MapLike]", "map[string]MapLike", "[]ListLike", "[]Sequential/Set", "Association[string,MapLike]"}, "type")}
 	if c.Type == "map[int]int/large" {
 		// maps with up to 70 keys (the collator sorts the keys of a map before it ranks): a base map, a copy,
 		// the base with one more key (first, middle or last in key order), the base with one value changed
@@ -523,6 +525,54 @@ func execTypedPool(prop string) func(typedPoolCase, core.Source) core.Result {
 				}
 			}
 			v, distinct = typedAxioms(prop, c.Type, vals, func(i, j int) int { return cmpIntSlices(keys[i], keys[j]) })
+		// collections held in slots whose static type is a collection interface (not any): what a slot holds is
+		// ranked as what it is -- a Map as a map, whatever order its own array view happens to list it in
+		case "[]MapLike":
+			vals := make([][]col.MapLike[string, int], len(c.Codes))
+			for i, code := range c.Codes {
+				vals[i] = []col.MapLike[string, int]{col.Map[string, int](lib.Notation()).MakeFromMap(mapOf(code))}
+			}
+			v, distinct = typedAxioms(prop, c.Type, vals, func(i, j int) int { return cmpIntSlices(flatMap(mapOf(c.Codes[i])), flatMap(mapOf(c.Codes[j]))) })
+		case "List[MapLike]":
+			vals := make([]col.ListLike[col.MapLike[string, int]], len(c.Codes))
+			for i, code := range c.Codes {
+				vals[i] = col.List[col.MapLike[string, int]](lib.Notation()).MakeFromArray([]col.MapLike[string, int]{col.Map[string, int](lib.Notation()).MakeFromMap(mapOf(code))})
+			}
+			v, distinct = typedAxioms(prop, c.Type, vals, func(i, j int) int { return cmpIntSlices(flatMap(mapOf(c.Codes[i])), flatMap(mapOf(c.Codes[j]))) })
+		case "map[string]MapLike":
+			vals := make([]map[string]col.MapLike[string, int], len(c.Codes))
+			for i, code := range c.Codes {
+				vals[i] = map[string]col.MapLike[string, int]{"k": col.Map[string, int](lib.Notation()).MakeFromMap(mapOf(code))}
+			}
+			v, distinct = typedAxioms(prop, c.Type, vals, func(i, j int) int { return cmpIntSlices(flatMap(mapOf(c.Codes[i])), flatMap(mapOf(c.Codes[j]))) })
+		case "Association[string,MapLike]":
+			vals := make([]col.AssociationLike[string, col.MapLike[string, int]], len(c.Codes))
+			for i, code := range c.Codes {
+				vals[i] = col.Association[string, col.MapLike[string, int]](lib.Notation()).Make("k", col.Map[string, int](lib.Notation()).MakeFromMap(mapOf(code)))
+			}
+			v, distinct = typedAxioms(prop, c.Type, vals, func(i, j int) int { return cmpIntSlices(flatMap(mapOf(c.Codes[i])), flatMap(mapOf(c.Codes[j]))) })
+		case "[]ListLike":
+			vals := make([][]col.ListLike[int], len(c.Codes))
+			for i, code := range c.Codes {
+				vals[i] = []col.ListLike[int]{col.List[int](lib.Notation()).MakeFromArray(code)}
+			}
+			v, distinct = typedAxioms(prop, c.Type, vals, func(i, j int) int { return cmpIntSlices(c.Codes[i], c.Codes[j]) })
+		case "[]Sequential/Set":
+			vals := make([][]col.Sequential[int], len(c.Codes))
+			members := make([][]int, len(c.Codes))
+			for i, code := range c.Codes {
+				set := col.Set[int](lib.Notation()).MakeFromArray(code)
+				vals[i] = []col.Sequential[int]{set}
+				seen := map[int]bool{}
+				for _, k := range code {
+					if !seen[k] {
+						seen[k] = true
+						members[i] = append(members[i], k)
+					}
+				}
+				sort.Ints(members[i])
+			}
+			v, distinct = typedAxioms(prop, c.Type, vals, func(i, j int) int { return cmpIntSlices(members[i], members[j]) })
 		case "map[int]int/large":
 			// codes are (key, value) pairs; the maps are filled in a scrambled order
 			vals := make([]map[int]int, len(c.Codes))
